@@ -118,6 +118,7 @@ type Run struct {
 	SyncDrops       int
 	SyncWindows     int
 	LostInFlight    int
+	CalledRewritten int
 	QuiescentChecks int
 	Reorders        int
 }
@@ -151,6 +152,8 @@ type harness struct {
 	down         bool // the connection is cut: hook events are ignored, changes still recorded
 	txAccepted   bool // the last of them was accepted
 	syncOut      bool // a full sync has been executed by the server and not applied by the client yet
+	calledSeen   map[string][]int
+	calledNote   string
 	// the next full sync is parked on the server after its answer has been computed
 	holdSyncNext bool
 	heldSync     chan struct{}
@@ -163,9 +166,36 @@ type srcTracer struct {
 }
 
 // bound before the rpc server's own tracer: the change is recorded before the push it causes
+// afterTracer is bound after the rpc server's tracer: what a later tracer (a history, the debugger)
+// is shown of the same transition.
+type afterTracer struct {
+	*am.TracerNoOp
+	h *harness
+}
+
+func (t *afterTracer) TransitionEnd(tx *am.Transition) {
+	h := t.h
+	h.mu.Lock()
+	defer h.mu.Unlock()
+	want, ok := h.calledSeen[tx.Id]
+	if !ok || tx.Mutation == nil {
+		return
+	}
+	delete(h.calledSeen, tx.Id)
+	if fmt.Sprint(want) != fmt.Sprint(tx.Mutation.Called) && h.calledNote == "" {
+		h.calledNote = fmt.Sprintf("the transition's Mutation.Called was %v when the first tracer saw it and %v for a tracer bound after the rpc server's (another tracer rewrote the machine's mutation)", want, tx.Mutation.Called)
+	}
+}
+
 func (t *srcTracer) TransitionEnd(tx *am.Transition) {
 	h := t.h
 	h.mu.Lock()
+	if tx.Mutation != nil {
+		if h.calledSeen == nil {
+			h.calledSeen = map[string][]int{}
+		}
+		h.calledSeen[tx.Id] = slices.Clone(tx.Mutation.Called)
+	}
 	h.txCount++
 	h.txAccepted = tx.IsAccepted.Load()
 	h.mu.Unlock()
@@ -473,6 +503,7 @@ func Exec(c Case) *Run {
 	defer registry.Delete(srv)
 	defer registry.Delete(cli)
 	srv.Start(nil)
+	src.BindTracer(&afterTracer{TracerNoOp: &am.TracerNoOp{Id: "verif-after"}, h: h})
 	cli.ConnRetryDelay = 20 * time.Millisecond
 	cli.ConnRetryBackoff = 0
 	cli.Start(nil)
@@ -828,6 +859,12 @@ opsLoop:
 		}
 	}
 	h.mu.Unlock()
+	h.mu.Lock()
+	if h.calledNote != "" {
+		// not part of the property (C09 speaks of the mirror): counted as an observation, see DESIGN §10
+		run.CalledRewritten++
+	}
+	h.mu.Unlock()
 	if neverSynced > 0 {
 		run.Failures = append(run.Failures, "a diff was rejected by the client (clock drift detected) but no full sync followed")
 	}
@@ -951,6 +988,11 @@ func GenCase(r *rand.Rand) Case {
 	}
 	if held {
 		c.Ops = append(c.Ops, "release")
+	}
+	if c.SyncMut {
+		// the last mutation before the source goes quiet calls an untracked state only (D), whose
+		// relation changes a tracked one (D removes A)
+		c.Ops = append(c.Ops, "loc:rem:d", "loc:add:a", "wait", "loc:add:d", "wait")
 	}
 	c.Tag = "random"
 	return c
